@@ -137,13 +137,17 @@ def check(ctx):
                 return any(sconnp.field(d, "p09") == "1" for d in sconnp.tx_dumps(impl[i]) if d != "N")
         return False
     known_hits = [i for i in failing if "http09-then-tunnel-error" in kf and is_http09_guard(i)]
-    # the fixed witness of that finding, replayed on every run
+    # the witness of that finding (repaired in /repo f0f8957, listed as fixed: never accepted as known), replayed on every run as a regression case:
+    # junk after an Upgrade request, a 101 answer, then request calls -- every one of them must answer TUNNEL
     wq = b"GET /up HTTP/1.1\r\nHost: a\r\nUpgrade: websocket\r\nConnection: Upgrade\r\n\r\nA\x16\x01A\n\n\x80\n"
-    wcase = sconnp.case(["O", "Q" + wq.hex(), "S" + b"HTTP/1.1 101 X\r\n\r\n".hex(), "Q41"])
-    wout, _ = sconnp.run_impl(ctx, [wcase], tag="known")
+    wcase = sconnp.case(["O", "Q" + wq.hex(), "S" + b"HTTP/1.1 101 X\r\n\r\n".hex(), "Q41", "Q4242"])
+    wout, _ = sconnp.run_impl(ctx, [wcase], tag="regress")
     wv = sconnp.run_oracles(ctx, [wcase], wout) if wout else [None]
-    if "http09-then-tunnel-error" in kf and wv and wv[0] is not None and not wv[0].get("C16", True):
-        ctx.known.append("id=http09-then-tunnel-error witness still exhibits it (+%d generated histories): %s" % (len(known_hits), kf["http09-then-tunnel-error"]["what"][:200]))
+    wrc = [sconnp.parse_op(x)[1][:1] for x in sconnp.split_ops(wout[0])] if wout else []
+    if not (wv and wv[0] is not None and wv[0].get("C16", False) and wrc[-2:] == [[4], [4]]):
+        vf.violation(ctx, "regress-http09-then-tunnel", {"kind": "request-call-in-tunnel-mode-does-not-answer-TUNNEL", "suite": "S-connp", "case": wcase,
+                                                        "return_codes": wrc, "implementation": (wout[0] if wout else "")[-2000:],
+                                                        "note": "regression of the repaired finding http09-then-tunnel-error (/repo f0f8957)"})
     # second listed finding: after an accepted CONNECT whose head came alone, tunnel bytes of the SERVER that arrive before any client byte are parsed as a response
     sw = sconnp.case(["O", "Q" + b"CONNECT h:25 HTTP/1.1\r\nHost: h:25\r\n\r\n".hex(), "S" + b"HTTP/1.1 200 OK\r\n\r\n".hex(), "S" + b"220 ready\r\n".hex()])
     swo, _ = sconnp.run_impl(ctx, [sw], tag="known2")
